@@ -1854,7 +1854,9 @@ static int delcols_work (
 	int i, j, k, nrows, ncols;
 	EGLPNUM_TYPENAME_ILLlpdata *qslp;
 	EGLPNUM_TYPENAME_ILLmatrix *A;
+	EGLPNUM_TYPENAME_ILLmatrix *S;
 	int *newcolindex = 0;
+	int *newstructindex = 0;
 	int *ind, *beg, *cnt;
 
 	/* Allows logicals to be deleted, to handle call from delcols. */
@@ -1898,6 +1900,9 @@ static int delcols_work (
 
 	/* Update the struct arrays */
 
+	if (qslp->nstruct > 0)
+		ILL_SAFE_MALLOC (newstructindex, qslp->nstruct, int);
+
 	for (i = 0, j = 0; i < qslp->nstruct; i++)
 	{
 		k = qslp->structmap[i];
@@ -1909,10 +1914,12 @@ static int delcols_work (
 				qslp->intmarker[j] = qslp->intmarker[i];
 			if (qslp->is_sos_mem)
 				qslp->is_sos_mem[j] = qslp->is_sos_mem[i];
+			newstructindex[i] = j;
 			j++;
 		}
 		else
 		{
+			newstructindex[i] = -1;
 			rval = ILLsymboltab_delete (&qslp->coltab, qslp->colnames[i]);
 			CHECKRVALG (rval, CLEANUP);
 			ILL_IFFREE(qslp->colnames[i]);
@@ -1926,9 +1933,29 @@ static int delcols_work (
 		qslp->rowmap[i] = newcolindex[qslp->rowmap[i]];
 	}
 
+	/* Update the SOS sets: their members are structural column numbers */
+
+	S = &qslp->sos;
+	for (i = 0; i < S->matcols; i++)
+	{
+		j = S->matbeg[i];
+		for (k = S->matbeg[i]; k < S->matbeg[i] + S->matcnt[i]; k++)
+		{
+			if (newstructindex[S->matind[k]] != -1)
+			{
+				S->matind[j] = newstructindex[S->matind[k]];
+				if (j != k)
+					EGLPNUM_TYPENAME_EGlpNumCopy (S->matval[j], S->matval[k]);
+				j++;
+			}
+		}
+		S->matcnt[i] = j - S->matbeg[i];
+	}
+
 CLEANUP:
 
 	ILL_IFFREE(newcolindex);
+	ILL_IFFREE(newstructindex);
 
 	EG_RETURN (rval);
 }
